@@ -20,6 +20,10 @@ from concurrent.futures import ThreadPoolExecutor
 from fractions import Fraction
 
 import numpy as np
+import warnings
+
+# a tap of power 0 is -inf dB: the library's linear2dB warns (and is right to return -inf)
+warnings.filterwarnings("ignore", message="divide by zero encountered in log10")
 
 from .. import tlc, graph
 from ..core import pool_map
@@ -28,7 +32,8 @@ MODULE = "chan/Tdl.tla"
 TOL = 1e-9
 LAWS = ["DiscLaw", "BlockLaw", "PosLaw", "SetLaw", "ChanLaw"]
 DEVS = ["DiscRoundHalfUp", "DiscMergeKeepsLast", "DiscNoNormalise", "NoSkipBetweenBlocks", "PathlossNotInReported",
-        "ShiftByTapIndex", "SwitchedNotTransposed", "TailDropped", "SliceBlockSizeFloorDiv", "MuSetPathlossNoneRaises"]
+        "ShiftByTapIndex", "SwitchedNotTransposed", "TailDropped", "SliceBlockSizeFloorDiv", "MuSetPathlossNoneRaises",
+        "PathlossZeroIsNone"]
 # real deviations of the code (the others are plausible regressions used to show the laws are not vacuous)
 REAL_DEVS = {"ProfileRmsSqrtDomain": "TdlChannelProfile() raises ValueError (math domain error) when all taps share one non-zero "
                                      "delay: rms delay spread takes the sqrt of a variance that rounds below zero",
@@ -57,8 +62,14 @@ PROFILES = {
     "deep": [[1, [1, 18]], [2, [1, 18]], [6, [4, 9]], [14, [4, 9]]],   # delays 0,2,4 (memory 4: time domain only)
     "four": [[0, [1, 25]], [4, [4, 25]], [8, [4, 25]], [12, [16, 25]]],
     "tie25": [[10, [25, 169]], [0, [144, 169]]],                  # 2.5 -> 2; amplitudes 12/13, 5/13
+    "zerotap": [[0, [9, 25]], [4, [0, 1]], [8, [16, 25]]],        # a tap of power 0 (-inf dB): kept, contributes nothing
 }
-TIE_FREE = {"flat", "two01", "two02", "collide", "unnorm", "three013", "unsorted", "late", "mergeone", "four"}
+TIE_FREE = {"flat", "two01", "two02", "collide", "unnorm", "three013", "unsorted", "late", "mergeone", "four", "zerotap"}
+
+
+def to_dB(p):
+    """linear power [n, d] -> dB as the API wants it (power 0 is -inf dB)"""
+    return 10 * math.log10(p[0] / p[1]) if p[0] else -math.inf
 
 
 def op(k, s=0, n=0, fft=0, sk="none", sel=()):
@@ -70,17 +81,17 @@ def sl(a, b, c):
 
 
 # subcarrier selections (fft 4 unless stated): kind, value
-SEL4 = [("none", []), ("array", [3, 0, 2]), ("list", [1, 3]), ("array", [-1, 0, 2, 2]),
+SEL4 = [("none", []), ("array", [3, 0, 2]), ("list", [1, 3]), ("array", [-1, 0, 2, 2]), ("array", [0]), ("list", [0]),
         ("slice", sl(0, 4, 2)), ("slice", sl(1, None, 2)), ("slice", sl(None, None, -1)), ("slice", sl(-3, None, 1)),
         ("slice", sl(0, 2, None)), ("slice", sl(None, None, None)),
         # step does not divide the span
         ("slice", sl(0, 4, 3)), ("slice", sl(3, 0, -2)), ("slice", sl(1, 4, 2)), ("slice", sl(None, 3, 2)),
         ("slice", sl(0, 1, 2)), ("slice", sl(None, None, 3))]
-SEL2 = [("none", []), ("array", [1, 0]), ("slice", sl(0, 2, 1)), ("slice", sl(None, None, 2)), ("slice", sl(1, None, None)),
+SEL2 = [("none", []), ("array", [1, 0]), ("array", [0]), ("slice", sl(0, 2, 1)), ("slice", sl(None, None, 2)), ("slice", sl(1, None, None)),
         ("slice", sl(None, None, -1)), ("list", [1])]
 SEL1 = [("none", []), ("slice", sl(None, None, None)), ("array", [0])]
 # fft 8 (exact in Q(zeta_8)); the last five have steps that do not divide the span
-SEL8 = [("none", []), ("array", [5, -1, 0, 3]), ("slice", sl(2, 7, None)), ("slice", sl(None, None, -2)), ("list", [7, 1, 1]),
+SEL8 = [("none", []), ("array", [5, -1, 0, 3]), ("slice", sl(2, 7, None)), ("slice", sl(None, None, -2)), ("list", [7, 1, 1]), ("array", [0]),
         ("slice", sl(0, 8, 3)), ("slice", sl(1, None, 2)), ("slice", sl(7, None, -3)), ("slice", sl(None, None, 5)), ("slice", sl(-7, 6, 4))]
 
 
@@ -158,29 +169,34 @@ def configs_for(tier, seed):
             add("tdl", name, ant, ops=ops, variant=i + j, maxpos=(20 if small else 16) if thorough else (10 if ant == (2, 3) else mp),
                 ts=("dec" if name in TIE_FREE and (i + j) % 2 else "dy" if (i + j) % 3 else "one"))
     # --- SuChannel / SuMimoChannel with a scalar path loss
-    su_pls = [[[(1, 2)]], [[(3, 5)]], [[(1, 1)]]]
+    # amplitude 0 = path loss exactly 0.0 (falsy but valid), next to ordinary values, None (op PL 0) and, thorough, 1.0
+    su_pls = [[[(1, 2)]], [[(0, 1)]], [[(3, 5)]]] + ([[[(1, 1)]]] if thorough else [])
     su_sets = [("two02", (0, 0)), ("three013", (2, 3)), ("collide", (1, 2)), ("late", (2, 1))] + \
               ([("unsorted", (3, 2)), ("ties", (2, 2)), ("four", (0, 0)), ("tie25", (2, 3))] if thorough else [])
     for i, (name, ant) in enumerate(su_sets):
         mem = mem_of(PROFILES[name])
         ops = time_ops(3, 4)[:3 if not thorough else 4] + freq_ops(mem, rot + 11 * i + 2, 2, lin=thorough)
-        ops += [op("PL", n=1), op("PL", n=2), op("PL", n=0)] + ([op("PL", n=3)] if thorough else [])
+        ops += [op("PL", n=1), op("PL", n=2), op("PL", n=0), op("PL", n=3)] + ([op("PL", n=4)] if thorough else [])
         if ant != (0, 0):
             ops += dirs
         add("su", name, ant, pls=su_pls, ops=ops, variant=i, maxpos=10 if not thorough else 12,
             ts="dec" if name in TIE_FREE and i % 2 else "dy")
     # --- MuChannel / MuMimoChannel: links superposed, path-loss matrix
     def plm(kr, kt, k):
-        pool = [(1, 2), (1, 3), (2, 3), (1, 1), (3, 5), (1, 4)]
+        pool = [(1, 2), (1, 3), (2, 3), (1, 1), (3, 5), (1, 4), (0, 1)]
         return [[pool[(r * kt + t + k) % len(pool)] for t in range(kt)] for r in range(kr)]
+
+    def eye(kr, kt):          # np.eye(kr, kt): every cross link blocked (path loss exactly 0)
+        return [[(1, 1) if r == t else (0, 1) for t in range(kt)] for r in range(kr)]
     mu_sets = [("two01", (0, 0), (2, 2)), ("collide", (0, 0), (2, 3)), ("two02", (2, 1), (2, 2)), ("late", (1, 2), (1, 2))] + \
               ([("three013", (2, 3), (2, 2)), ("ties", (0, 0), (3, 2)), ("unsorted", (2, 2), (2, 1)), ("flat", (2, 3), (2, 3))]
                if thorough else [])
     for i, (name, ant, users) in enumerate(mu_sets):
         mem = mem_of(PROFILES[name])
         ops = time_ops(3, 4)[:3] + freq_ops(mem, rot + 13 * i + 1, 2, lin=thorough and i % 2 == 0)
-        ops += [op("PL", n=1), op("PL", n=2), op("PL", n=0)] + dirs
-        add("mu", name, ant, users=users, pls=[plm(users[0], users[1], 0), plm(users[0], users[1], 3)], ops=ops, variant=i,
+        ops += [op("PL", n=1), op("PL", n=2), op("PL", n=0)] + ([op("PL", n=3)] if thorough else []) + dirs
+        add("mu", name, ant, users=users, variant=i, ops=ops,
+            pls=[plm(users[0], users[1], i), eye(users[0], users[1])] + ([plm(users[0], users[1], 3 + i)] if thorough else []),
             maxpos=8 if not thorough else 12, ts="dec" if name in TIE_FREE and i % 2 else "one")
     # --- every selection geometry on a cheap SISO channel (star: one call from the fresh object)
     sweep4 = [op("F", 1, 1, 4, k, v) for k, v in SEL4] + [op("F", 2, 2, 4, k, v) for k, v in SEL4[4:]]
@@ -207,17 +223,18 @@ def configs_for(tier, seed):
             add("tdl", "deep" if q % 120 else "four", (0, 0), ops=allsl8[q:q + 60], variant=q, maxpos=8, ts="dy")
         allsl2 = [op("F", 1, 2, 2, "slice", sl(a, b, c)) for a in (None, -2, -1, 0, 1, 2) for b in (None, -3, -1, 0, 1, 2)
                   for c in (None, 1, 2, -1, -2) if len(range(*slice(a, b, c).indices(2))) > 0]
-        add("su", "two01", (1, 2), pls=su_pls, ops=allsl2 + [op("PL", n=2)], variant=5, maxpos=4)
+        add("su", "two01", (1, 2), pls=su_pls, ops=allsl2 + [op("PL", n=2), op("PL", n=3)], variant=5, maxpos=4)
     # --- discretisation stars
     if thorough:
         fam = [(1, range(0, 14), [(1, 1), (1, 2), (5, 3)], None, "dy"),
-               (2, range(0, 14), [(1, 1), (1, 2), (5, 3)], None, "dy"),
+               (2, range(0, 14), [(1, 1), (1, 2), (5, 3), (0, 1)], None, "dy"),
+               (3, [0, 2, 3, 6, 9], [(1, 1), (0, 1), (2, 5)], "split", "dy"),
                (3, range(0, 12), [(1, 1), (3, 1), (2, 5)], "split", "dy"),
                (3, [0, 1, 3, 4, 5, 7, 8, 9, 11], [(1, 1), (3, 2)], "split", "dec"),
                (4, [0, 2, 3, 6, 9, 10], [(1, 1), (3, 1)], "split", "dy")]
     else:
         fam = [(1, range(0, 12), [(1, 1), (3, 1)], None, "dy"),
-               (2, range(0, 11), [(1, 1), (3, 1)], None, "dy"),
+               (2, range(0, 11), [(1, 1), (3, 1), (0, 1)], None, "dy"),
                (2, [0, 1, 3, 4, 5, 7, 8, 9], [(1, 1), (2, 5)], None, "dec"),
                (3, [0, 2, 3, 6, 7, 10], [(1, 1), (3, 1)], "split", "dy")]
     for ntaps, qds, pws, split, ts in fam:
@@ -302,7 +319,7 @@ TS = {"one": 1.0, "dy": 2.0 ** -20, "dec": 3.25e-8}
 
 def raw_profile_arrays(c):
     ts = TS[c["ts"]]
-    dB = np.array([10 * math.log10(p[0] / p[1]) for _, p in c["prof"]])
+    dB = np.array([to_dB(p) for _, p in c["prof"]])
     delays = np.array([q / 4.0 for q, _ in c["prof"]]) * ts
     return dB, delays, ts
 
@@ -476,11 +493,16 @@ def run_path(job):
                 if ch.switched_direction != bool(o["n"]):
                     what = "switched_direction does not read back"
             elif k == "PL":
-                if c["kind"] == "su":
-                    ch.set_pathloss(None if o["n"] == 0 else float(Fraction(*c["pls"][o["n"] - 1][0][0]) ** 2))
+                # value forms rotate with the step: float / int for whole numbers (0 and 1 are valid path losses)
+                if o["n"] == 0:
+                    ch.set_pathloss(None)
+                elif c["kind"] == "su":
+                    v = Fraction(*c["pls"][o["n"] - 1][0][0]) ** 2
+                    ch.set_pathloss(int(v) if (v.denominator == 1 and i % 2) else float(v))
                 else:
-                    ch.set_pathloss(None if o["n"] == 0 else
-                                    np.array([[float(Fraction(*a) ** 2) for a in row] for row in c["pls"][o["n"] - 1]]))
+                    m = [[Fraction(*a) ** 2 for a in row] for row in c["pls"][o["n"] - 1]]
+                    whole = all(v.denominator == 1 for row in m for v in row)
+                    ch.set_pathloss(np.array(m, dtype=int) if (whole and i % 2) else np.array(m, dtype=float))
             elif k == "Gen":
                 ch.generate_impulse_response(o["n"])
                 what = check_ir(ch.get_last_impulse_response(), exp["ir"][0][0], exp["delays"], exp["mem"], siso, o["n"])
@@ -542,7 +564,7 @@ def run_disc(job):
     okc = 0
     for e in cases:
         prof = e["op"]["prof"]
-        dB = np.array([10 * math.log10(p[1][0] / p[1][1]) for p in prof])
+        dB = np.array([to_dB(p[1]) for p in prof])
         delays = np.array([p[0] / 4.0 for p in prof]) * ts
         want_d = e["exp"]["disc"]["delays"]
         want_p = np.array([Fraction(*q) for q in e["exp"]["disc"]["powers"]], dtype=float)
@@ -655,14 +677,16 @@ DEV_EXPECT = {  # flag -> (violated property, LAWFAIL name or None)
     "DiscRoundHalfUp": ("DiscLaw", None), "DiscMergeKeepsLast": ("DiscLaw", None), "DiscNoNormalise": ("DiscLaw", None),
     "NoSkipBetweenBlocks": ("PosLaw", None), "PathlossNotInReported": ("ChanLaw", "Reported"),
     "ShiftByTapIndex": ("ChanLaw", "Conv"), "SwitchedNotTransposed": ("ChanLaw", "Conv"), "TailDropped": ("ChanLaw", "Len"),
-    "SliceBlockSizeFloorDiv": ("BlockLaw", None), "MuSetPathlossNoneRaises": ("SetLaw", None)}
+    "SliceBlockSizeFloorDiv": ("BlockLaw", None), "MuSetPathlossNoneRaises": ("SetLaw", None),
+    "PathlossZeroIsNone": ("ChanLaw", "Conv")}
 
 
 def dev_models(table, signals):
     ops = [op("T", 1, 3), op("T", 2, 3), op("T", 3, 3), op("F", 1, 2, 4), op("F", 2, 1, 4, "slice", sl(0, 4, 3)),
-           op("F", 2, 2, 4, "array", [3, 0, 2]), op("Dir", n=1), op("Dir", n=0), op("PL", n=1), op("PL", n=0)]
-    su = base_cfg(1, "su", "two02", (2, 2), pls=[[[(1, 2)]]], ops=ops)
-    mu = base_cfg(1, "mu", "two01", (0, 0), users=(2, 2), pls=[[[(1, 2), (1, 3)], [(2, 3), (1, 1)]]], ops=ops)
+           op("F", 2, 2, 4, "array", [3, 0, 2]), op("Dir", n=1), op("Dir", n=0), op("PL", n=1), op("PL", n=2), op("PL", n=0)]
+    su = base_cfg(1, "su", "two02", (2, 2), pls=[[[(1, 2)]], [[(0, 1)]]], ops=ops)
+    mu = base_cfg(1, "mu", "two01", (0, 0), users=(2, 2), pls=[[[(1, 2), (1, 3)], [(2, 3), (1, 1)]], [[(1, 1), (0, 1)], [(0, 1), (1, 1)]]],
+                  ops=ops)
     dc = disc_cfg(1, 3, [0, 1, 2, 5, 6], [(1, 1), (3, 1)], [0, 2, 6], "dy")
     return {d: [dc] if d.startswith("Disc") else [mu] if d.startswith("Mu") else [su] for d in DEVS}
 
